@@ -8,6 +8,7 @@ CONSTANTS
 INVARIANT ParseFull
 INVARIANT ParseMin
 INVARIANT ParseAt
+INVARIANT ParseLeafy
 INVARIANT RoundTrip
 INVARIANT ListForm
 INVARIANT Placeholder
